@@ -9,6 +9,11 @@ crashes on acyclic definitions.
 import Mistral.Lemmas.Engine
 import Mistral.Lemmas.Affected
 import Mistral.Props.C04
+import Mistral.Lemmas.LiveStates
+import Mistral.Lemmas.LiveInv2
+import Mistral.Lemmas.LiveWake
+import Mistral.Lemmas.LiveFinal
+import Mistral.Lemmas.LiveWitness
 
 namespace Mistral.Props.C01
 open Mistral Mistral.Engine Mistral.Join
@@ -336,5 +341,231 @@ theorem direct_join_gets_refresh (sp : Spec) (w : World) (t : Tid) (ok : Bool) (
   · show j ∈ affected sp w2 ({ r1 with processed := true } : TaskRow).name
     exact haff
   · rw [hjr2]; rfl
+
+
+/-! ### liveness: never left RUNNING with nothing pending -/
+
+open Mistral.Engine.Live in
+/-- In every world reachable without the loss of an action at its executor: executions have
+    distinct identities, every IDLE execution has a start request in flight and every RUNNING
+    execution an action in flight, a RUNNING workflow all of whose executions are completed has a
+    completion check in flight; an execution that is not completed is IDLE, RUNNING or a WAITING
+    join.  (ALL definitions with a start task: cyclic ones, joins of every kind included.) -/
+theorem live_inv_reachable (sp : Spec) (hstart : startTasks sp ≠ []) (evs : List Event)
+    (hl : ∀ e ∈ evs, lossless e) : Inv1 (run sp evs) ∧ SOK sp (run sp evs).tasks := by
+  unfold run
+  have hall : ∀ (evs : List Event) (w : World), (∀ e ∈ evs, lossless e) → Inv1 w ∧ SOK sp w.tasks →
+      Inv1 (evs.foldl (step sp) w) ∧ SOK sp (evs.foldl (step sp) w).tasks := by
+    intro evs
+    induction evs with
+    | nil => intro w _ h; exact h
+    | cons e rest ih =>
+      intro w hl h
+      exact ih _ (fun e' he' => hl e' (List.mem_cons_of_mem _ he'))
+        ⟨step_inv1 sp hstart w e (hl e List.mem_cons_self) h.1, step_SOK sp w e h.2⟩
+  refine hall evs init hl ⟨inv1_init, ?_⟩
+  intro r hr; simp [init] at hr
+
+/-- no task of the definition is a join -/
+def joinFree (sp : Spec) : Prop := ∀ t ∈ sp.graph.tasks, t.join = none
+
+theorem joinFree_isJoin (sp : Spec) (h : joinFree sp) (n : String) : isJoin sp n = none := by
+  unfold isJoin
+  split
+  · rename_i t ht
+    exact h t (List.mem_of_find?_eq_some ht)
+  · rfl
+
+open Mistral.Engine.Live in
+/-- "once all in-flight work has been delivered the execution is in a final state - it is never
+    left RUNNING with nothing pending", for every definition WITHOUT joins that has a start task,
+    every history of deliveries / results / pause / resume / stop in which no action is lost at its
+    executor (a lost action is the subject of C20): a RUNNING execution always has a delivery
+    pending.  (PAUSED legitimately waits for the operator; IDLE is before the start.) -/
+theorem no_stuck_joinfree (sp : Spec) (hjf : joinFree sp) (hstart : startTasks sp ≠ []) (evs : List Event)
+    (hl : ∀ e ∈ evs, lossless e) (hrun : (run sp evs).wf = .RUNNING) : (run sp evs).pending ≠ [] := by
+  obtain ⟨hinv, hsok⟩ := live_inv_reachable sp hstart evs hl
+  have nonempty : ∀ (c : Item → Bool), (run sp evs).pending.any c = true → (run sp evs).pending ≠ [] := by
+    intro c hc e; rw [e] at hc; simp at hc
+  rcases hinv.chk hrun with ⟨r, hr, hinc⟩ | hck
+  · rcases hsok r hr with h1 | h1 | h1 | ⟨_, h1⟩
+    · rw [h1] at hinc; cases hinc
+    · exact nonempty _ ((hinv.rl r hr).1 h1)
+    · exact nonempty _ ((hinv.rl r hr).2 h1)
+    · rw [joinFree_isJoin sp hjf] at h1; cases h1
+  · intro e; rw [e] at hck; cases hck
+
+/-! #### definitions with joins -/
+
+open Mistral.Engine.Live in
+/-- every world the history passes through is in the class `PausedClean`: while PAUSED no
+    incomplete execution carries a stale `processed` flag.  (A history leaves the class when a
+    join that `Task.defer` re-opened after it had completed is still unfinished at a `pause`.) -/
+def cleanFrom (sp : Spec) (w : World) (evs : List Event) : Prop :=
+  ∀ n, PausedClean ((evs.take n).foldl (step sp) w)
+
+open Mistral.Engine.Live in
+def pausedCleanRun (sp : Spec) (evs : List Event) : Prop := cleanFrom sp init evs
+
+open Mistral.Engine.Live in
+/-- the complete liveness invariant -/
+structure LiveInv (sp : Spec) (w : World) : Prop where
+  i1 : Inv1 w
+  sok : SOK sp w.tasks
+  i2 : Inv2 sp w
+  jw : JW sp w
+  jru : JoinRowsUnique sp w
+  ji : JoinInv sp w
+
+open Mistral.Engine.Live in
+theorem live_inv_init (sp : Spec) : LiveInv sp init := by
+  refine ⟨inv1_init, ?_, inv2_init sp, jw_init sp, ?_, init_ji sp⟩
+  · intro r hr; simp [init] at hr
+  · intro n _; simp [init, countL]
+
+open Mistral.Engine.Live in
+theorem live_inv_step (sp : Spec) (rk : String → Nat) (hsp : SpecOK sp rk) (hstart : startTasks sp ≠ [])
+    (w : World) (ev : Event) (hl : lossless ev) (hpc : PausedClean w) (h : LiveInv sp w) :
+    LiveInv sp (step sp w ev) :=
+  ⟨step_inv1 sp hstart w ev hl h.i1, step_SOK sp w ev h.sok, step_inv2 sp w ev hpc h.i2,
+   step_JW sp rk hsp w ev hl h.i1 h.sok h.i2 h.jru h.ji hpc h.jw,
+   Props.C04.join_created_once_step sp w ev h.jru, step_ji sp w ev h.ji⟩
+
+open Mistral.Engine.Live in
+/-- the liveness invariant holds in every world reachable by a history inside the class -/
+theorem live_inv_acyclic_reachable (sp : Spec) (rk : String → Nat) (hsp : SpecOK sp rk) (hstart : startTasks sp ≠ [])
+    (evs : List Event) (hl : ∀ e ∈ evs, lossless e) (hc : pausedCleanRun sp evs) : LiveInv sp (run sp evs) := by
+  unfold run
+  have hall : ∀ (evs : List Event) (w : World), (∀ e ∈ evs, lossless e) → cleanFrom sp w evs → LiveInv sp w →
+      LiveInv sp (evs.foldl (step sp) w) := by
+    intro evs
+    induction evs with
+    | nil => intro w _ _ h; exact h
+    | cons e rest ih =>
+      intro w hl hc h
+      have h0 : PausedClean w := by simpa using hc 0
+      refine ih _ (fun e' he' => hl e' (List.mem_cons_of_mem _ he')) ?_
+        (live_inv_step sp rk hsp hstart w e (hl e List.mem_cons_self) h0 h)
+      intro n
+      have := hc (n + 1)
+      simpa using this
+  exact hall evs init hl hc (live_inv_init sp)
+
+open Mistral.Engine.Live in
+/-- "once all in-flight work has been delivered the execution is in a final state - it is never
+    left RUNNING (or its tasks left waiting) with nothing pending", joins of every kind included:
+    for every definition that is acyclic (a rank decreasing along inbound transitions, within the
+    recursion budget), has unique task names and satisfiable `join: N` (both guaranteed by the
+    validator), whose fired routes are transitions of the definition, within the model's walk
+    budget, and has a start task; for every history of deliveries / results / pause / resume / stop
+    without the loss of an action at its executor that stays inside the class `PausedClean`:
+    a RUNNING execution always has a delivery pending.  The excluded histories are exactly those
+    of the known finding (`no_stuck_acyclic_full_fails`). -/
+theorem no_stuck_acyclic_partial (sp : Spec) (rk : String → Nat) (hsp : SpecOK sp rk) (hstart : startTasks sp ≠ [])
+    (evs : List Event) (hl : ∀ e ∈ evs, lossless e) (hc : pausedCleanRun sp evs)
+    (hrun : (run sp evs).wf = .RUNNING) : (run sp evs).pending ≠ [] := by
+  have h := live_inv_acyclic_reachable sp rk hsp hstart evs hl hc
+  exact pending_of_invariants sp rk (fun w x j hp => path_rank sp rk hsp w x j hp) _ h.i1 h.sok h.i2 h.jw hrun
+
+open Mistral.Engine.Live in
+/-- without a `pause` every history is inside the class: the full statement for histories of
+    deliveries / results / resume / stop -/
+theorem no_stuck_acyclic_nopause (sp : Spec) (rk : String → Nat) (hsp : SpecOK sp rk) (hstart : startTasks sp ≠ [])
+    (evs : List Event) (hl : ∀ e ∈ evs, lossless e) (hnp : ∀ e ∈ evs, e ≠ .pause)
+    (hrun : (run sp evs).wf = .RUNNING) : (run sp evs).pending ≠ [] := by
+  apply no_stuck_acyclic_partial sp rk hsp hstart evs hl _ hrun
+  -- the workflow is never PAUSED
+  have hall : ∀ (evs : List Event) (w : World), (∀ e ∈ evs, e ≠ .pause) → w.wf ≠ .PAUSED →
+      (evs.foldl (step sp) w).wf ≠ .PAUSED := by
+    intro evs
+    induction evs with
+    | nil => intro w _ h; exact h
+    | cons e rest ih =>
+      intro w hnp h
+      refine ih _ (fun e' he' => hnp e' (List.mem_cons_of_mem _ he')) ?_
+      intro hp
+      rcases step_wf sp w e with h1 | ⟨_, _, h1⟩ | ⟨h1, _⟩ | ⟨t, _, h1⟩ | ⟨_, _, h1⟩ | ⟨_, _, h1⟩
+      · rw [h1] at hp; exact h hp
+      · rw [h1] at hp; cases hp
+      · exact hnp e List.mem_cons_self h1
+      · rw [h1] at hp
+        revert hp h
+        cases w.wf <;> cases t <;> decide
+      · rcases h1 with h1 | h1 | h1 | h1 <;> (rw [h1] at hp; cases hp)
+      · rcases h1 with h1 | h1 | h1 <;> (rw [h1] at hp; cases hp)
+  intro n hp
+  exfalso
+  exact hall (evs.take n) init (fun e he => hnp e (List.mem_of_mem_take he)) (by simp [init]) hp
+
+open Mistral.Engine.Live in
+/-- The statement without the restriction to the class is FALSE of the code: the definition
+    `wSpec` (start tasks a, b; `j: join one` of a, b with on-success → k, on-error → e; `z: join
+    all` of k, e) with the history `wEvents` (j fails on branch b, branch a re-opens it, pause, j
+    succeeds while PAUSED, resume) ends RUNNING with nothing pending.  The same event list replayed
+    on the real engine gives the same rows and pending deliveries after every event
+    (corpus/C01/stale_processed_join.json): known finding. -/
+theorem no_stuck_acyclic_full_fails :
+    ¬ (∀ (sp : Spec) (rk : String → Nat), SpecOK sp rk → startTasks sp ≠ [] →
+        ∀ evs : List Event, (∀ e ∈ evs, lossless e) → (run sp evs).wf = .RUNNING → (run sp evs).pending ≠ []) := by
+  intro hall
+  exact hall wSpec wRank ⟨witness_names, witness_joins, witness_budget, witness_live, witness_rank, witness_fuel⟩
+    witness_starts wEvents witness_lossless witness_stuck.1 witness_stuck.2
+
+open Mistral.Engine.Live in
+/-- … and the witness history is outside the class the theorem is stated for (after the `pause`
+    the re-opened join j is WAITING with `processed = true`) -/
+theorem witness_outside_class : ¬ pausedCleanRun wSpec wEvents := by
+  intro h
+  exact witness_not_clean (h 19)
+
+/-! non-vacuity: concrete definitions and histories that meet the hypotheses -/
+
+/-- a definition without joins: a → b -/
+def exChain : Spec := {
+  graph := { tasks := [⟨"a", none, ["b"], [], [], []⟩, ⟨"b", none, [], [], [], []⟩], defaults := none },
+  live := [⟨"a", ["b"], [], []⟩, ⟨"b", [], [], []⟩] }
+
+open Mistral.Engine.Live in
+/-- `no_stuck_joinfree` applies to a RUNNING world in which task a has completed and b is IDLE -/
+example : joinFree exChain ∧ startTasks exChain ≠ [] ∧
+    (run exChain [.start, .deliver (.postStartTask ("a", 0) true), .deliver (.rpcStartTask ("a", 0) true),
+      .deliver (.postRunAction ("a", 0)), .execute ("a", 0) true, .deliver (.rpcResult ("a", 0) true)]).wf = .RUNNING := by
+  refine ⟨?_, ?_, ?_⟩
+  · intro t ht
+    simp [exChain] at ht
+    rcases ht with rfl | rfl <;> rfl
+  · decide +kernel
+  · decide +kernel
+
+open Mistral.Engine.Live in
+/-- the witness definition (fork, `join: one` with successors, `join: all`) satisfies `SpecOK` -/
+theorem wSpec_ok : SpecOK wSpec wRank :=
+  ⟨witness_names, witness_joins, witness_budget, witness_live, witness_rank, witness_fuel⟩
+
+open Mistral.Engine.Live in
+/-- `no_stuck_acyclic_partial` applies to a history with a pause / resume round on it: the class
+    predicate holds on every prefix, the final world is RUNNING -/
+example : pausedCleanRun wSpec [.start, .pause, .resume] ∧ (run wSpec [.start, .pause, .resume]).wf = .RUNNING := by
+  refine ⟨?_, by decide +kernel⟩
+  intro n
+  rcases n with _ | _ | _ | n
+  · decide +kernel
+  · decide +kernel
+  · decide +kernel
+  · have : List.take (n + 1 + 1 + 1) [Event.start, Event.pause, Event.resume] = [Event.start, Event.pause, Event.resume] := by
+      simp [List.take]
+    rw [this]
+    decide +kernel
+
+open Mistral.Engine.Live in
+/-- `no_stuck_acyclic_nopause` applies to the first 18 events of the witness (both branches and the
+    first run of the partial join done, the join re-opened): RUNNING, and indeed something pending -/
+example : (run wSpec (wEvents.take 18)).wf = .RUNNING ∧ (run wSpec (wEvents.take 18)).pending ≠ [] := by
+  decide +kernel
+
+/-- progress: every pending delivery of a world is enabled (`deliver` consumes it; an action at
+    an executor is answered through `execute`) -/
+theorem pending_enabled (w : World) (it : Item) (h : it ∈ w.pending) : w.pending.contains it = true := by
+  simpa using h
 
 end Mistral.Props.C01
